@@ -183,8 +183,11 @@ add("l2_m0", MB, FW + "::l2", L2_PROPS, tier="quick", cap_s=300, mem_gb=12, owne
     kargs=["--no-assertion-reach-checks"], encodes=L2_ENC,
     bounds="one call, one fully symbolic event (10 kinds, any usize id), ZERO machines, any time")
 L2_QUICK = {"l2_m2_e3", "l2_m2_e4_i1", "l2_m2_e4_iu", "l2_m2_e6", "l2_m2_e7", "l2_m2_e8_i1"}
-for m, tier, cap in ((1, "quick", 900), (2, "thorough", 1800)):
-    add("l2_batch2_m%d" % m, MB, FW + "::l2", ["C01", "C04", "C05", "C08", "C09", "C10"], tier=tier, cap_s=cap, mem_gb=16, owner="C01",
+for m, tier, cap in ((1, "quick", 900), (2, "quick", 1800)):
+    # the two-machine batch is the long pole of the quick tier: only the signal properties (whose batch clauses need a
+    # second machine to receive the signal) and the umbrella C05 run it in the quick tier
+    add("l2_batch2_m%d" % m, MB, FW + "::l2", ["C01", "C04", "C05", "C08", "C09", "C10"] if m == 1 else ["C09", "C05"], tier=tier,
+        cap_s=cap, mem_gb=16, owner="C01",
         cls="B", group="l2_batch2_m%d" % m, kargs=["--no-assertion-reach-checks"], encodes=L2_ENC,
         bounds="one call with a batch of TWO events, each any of NormalRecv / PaddingRecv / TunnelRecv / TunnelSent, %d machines, "
                "any Inv pre-state; machine steps by the transition contract TC" % m)
